@@ -553,6 +553,51 @@ func c17Owners(r *Report, lt *lifetimeTable) {
 				}
 			}
 		})
+		// … on every path through the exit function, not merely somewhere in it
+		{
+			isRet := func(i ssa.Instruction) bool { _, ok := i.(*ssa.Return); return ok }
+			callIs := func(pred func(c *ssa.Call) bool) func(ssa.Instruction) bool {
+				return func(i ssa.Instruction) bool {
+					c, ok := i.(*ssa.Call)
+					return ok && pred(c)
+				}
+			}
+			evOf := func(want string) func(c *ssa.Call) bool {
+				return func(c *ssa.Call) bool {
+					cal := c.Call.StaticCallee()
+					if cal == nil || cal.Name() != "writeEvent" || relPkg(cal) != "peer" || len(c.Call.Args) != 2 {
+						return false
+					}
+					mi, ok := c.Call.Args[1].(*ssa.MakeInterface)
+					return ok && typeShort(mi.X.Type()) == want
+				}
+			}
+			reqs := []edgeReq{
+				{Name: "requests.Clear(true)", Instr: callIs(func(c *ssa.Call) bool {
+					cal := c.Call.StaticCallee()
+					if cal == nil || cal.Name() != "Clear" || relPkg(cal) != "peer/requests" {
+						return false
+					}
+					b, ok := constBool(c.Call.Args[1])
+					return ok && b
+				})},
+				{Name: "TorPeerBitmap", Instr: callIs(evOf("peer.TorPeerBitmap"))},
+				{Name: "TorPeerGoaway", Instr: callIs(evOf("peer.TorPeerGoaway"))},
+			}
+			miss, reached := pathsMissingEntry(df, isRet, nil, reqs)
+			if reached > 0 {
+				for _, m := range miss {
+					switch m {
+					case "requests.Clear(true)":
+						hasClear = false
+					case "TorPeerBitmap":
+						hasBitmap = false
+					case "TorPeerGoaway":
+						hasGoaway = false
+					}
+				}
+			}
+		}
 		r.Check(hasClear, "R2", "peer.Run/exit-defer/requests.Clear(true)", exitDefer.Pos(), "exit defer clears all outstanding requests", "exit defer of peer.Run no longer clears outstanding requests (Clear(true, …))")
 		r.Check(hasBitmap, "R2", "peer.Run/exit-defer/TorPeerBitmap", exitDefer.Pos(), "exit defer retracts the peer's bitmap", "exit defer of peer.Run no longer retracts the peer's bitmap")
 		r.Check(hasGoaway, "R2", "peer.Run/exit-defer/TorPeerGoaway", exitDefer.Pos(), "exit defer announces TorPeerGoaway", "exit defer of peer.Run no longer sends TorPeerGoaway: the torrent keeps the dead peer listed")
